@@ -203,8 +203,23 @@ pub fn scenarios(thorough: bool) -> Vec<Scenario> {
             add(2, 2, fresh, true, ClockMode::StepRing, 2, 2);
         }
     }
+    // the node registry is cleared (stat::reset_resource_map) after the resource has been used by
+    // this very OS thread: the threads' entries must all land on the newly registered node. Every
+    // execution of this scenario runs on its own OS thread (see sched.rs), so whatever the library
+    // keeps per thread starts blank and is warmed inside the execution itself.
+    extra.push(Scenario { name: format!("{}T2xP1-after-registry-reset-out-Fixed-b1", OWN_THREAD), bound: if thorough { 2 } else { 1 }, cap: 0, body: after_registry_reset(body(2, 1, true, false, ClockMode::Fixed, 1)) });
     v.extend(extra);
     v
+}
+
+fn after_registry_reset(inner: Body) -> Body {
+    Arc::new(move || {
+        clock::set_ms(T0_MS + 250);
+        let e = EntryBuilder::new("c14-res".to_string()).with_traffic_type(TrafficType::Outbound).build().expect("no rules loaded");
+        e.exit();
+        stat::reset_resource_map();
+        inner()
+    })
 }
 
 pub fn run(o: &Opts, stats: &mut Stats) -> Option<usize> {
